@@ -921,6 +921,37 @@ fn cli_checks(ctx: &mut Ctx, rep: &mut Rep) {
     // flat records only: nested objects print in hash order (C13's business)
     let flat = "{\"k\":\"a\",\"n\":3,\"x\":1.5,\"s\":\"alpha GET\",\"status\":200,\"Status\":\"OK\",\"reqId\":\"R1\"}\n{\"k\":\"b\",\"n\":-1,\"s\":\"error\",\"status\":500}\nk=a n=4 status=200 msg=\"hello error\"\nplain GET line\n{\"k\":\"a\",\"n\":12,\"status\":404}\n";
     let _ = std::fs::write(&path, flat);
+    // the same bytes must mean the same whichever way they are handed over — also when they start
+    // with a byte-order mark, end without a newline, use CR LF, or are empty
+    let variants: Vec<(&str, Vec<u8>)> = vec![
+        ("bom", [b"\xEF\xBB\xBF".to_vec(), flat.as_bytes().to_vec()].concat()),
+        ("bom-only", b"\xEF\xBB\xBF".to_vec()),
+        ("crlf", flat.replace('\n', "\r\n").into_bytes()),
+        ("no-final-newline", flat.trim_end().as_bytes().to_vec()),
+        ("empty", vec![]),
+        ("nul-and-bom-inside", [b"{\"k\":\"a\"}\n\xEF\xBB\xBF{\"k\":\"b\"}\n\0\n".to_vec()].concat()),
+    ];
+    for (vname, bytes) in &variants {
+        let vpath = format!("{}/input-{}.log", dir, vname);
+        let _ = std::fs::write(&vpath, bytes);
+        for q in ["* | json | count", "* | json | sum(n), count by k", "* | logfmt | count by k", "*", "* | parse \"*\" as whole | count by whole"] {
+            let r1 = c04::run_binary(&[q, "--file", &vpath, "-o", "json"], None);
+            let r2 = c04::run_binary(&[q, "-o", "json"], Some(&vpath));
+            let key = format!("file-variant:{}:{}", vname, q);
+            match (r1, r2) {
+                (Some(x), Some(y)) => {
+                    if x.code == y.code && x.stdout == y.stdout && x.stderr == y.stderr {
+                        ctx.case("cli", &key, "pass", serde_json::json!({"query": q, "input": vname}));
+                    } else {
+                        rep.fail(ctx, "cli", &key, "C20/file-differs-from-stdin", "`--file P` and `< P` differ", serde_json::json!({"query": q, "input_variant": vname, "exit": [x.code, y.code],
+                            "out_file": String::from_utf8_lossy(&x.stdout).chars().take(300).collect::<String>(), "out_stdin": String::from_utf8_lossy(&y.stdout).chars().take(300).collect::<String>(),
+                            "err_file": String::from_utf8_lossy(&x.stderr).chars().take(200).collect::<String>(), "err_stdin": String::from_utf8_lossy(&y.stderr).chars().take(200).collect::<String>()}));
+                    }
+                }
+                _ => ctx.case("cli", "", "skip", serde_json::json!({"why": "cannot start the agrind binary"})),
+            }
+        }
+    }
     let queries = ["* | json", "* | json | count by k", "GET | json | fields k, n", "* | logfmt | where status == 200", "error", "* | json | limit 2"];
     // the format string must reach the printer verbatim whichever way it is given: case, `=`,
     // blanks, non-ASCII text and upper-case field names included
